@@ -35,9 +35,9 @@ def make(sid, specs, allsym=16, timeout=240, full=0):
                                                                "empty_index": len(specs), "kind": None, "stage": None}), info
         try:
             got = CassetteFile(buffer=buf[:]).list_files()
-        except VirtualFileValidationError as e:
+        except Exception as e:  # noqa: BLE001 - whatever the reader raises, the files were not listed
             got = None
-            info["read_error"] = str(e)
+            info["read_error"] = "%s: %s" % (type(e).__name__, e)
         if got is not None:
             info["listed"] = F.describe(got)
         ok = got is not None and F.same_list(got, descs)
@@ -65,9 +65,9 @@ def make_repeat(sid, spec, timeout=300):
         for b in bufs:
             try:
                 got = CassetteFile(buffer=b[:]).list_files()
-            except VirtualFileValidationError as e:
+            except Exception as e:  # noqa: BLE001
                 got = None
-                info["read_error"] = str(e)
+                info["read_error"] = "%s: %s" % (type(e).__name__, e)
             if got is None or not F.same_list(got, [descs[0], descs[0]]):
                 ok = False
         if ok:
@@ -88,9 +88,9 @@ def make_incremental(sid, specs, timeout=300):
             cas.add_file(cf)
             try:
                 got = cas.list_files()
-            except VirtualFileValidationError as e:
+            except Exception as e:  # noqa: BLE001
                 got = None
-                info["read_error"] = str(e)
+                info["read_error"] = "%s: %s" % (type(e).__name__, e)
             if got is None or not F.same_list(got, descs[:i + 1]):
                 ok = False
                 info["failed_after"] = i
@@ -110,9 +110,9 @@ def make_foreign(sid, specs, leader, blank, gaps, chunk=255, allsym=16, timeout=
         info = {"files": [s.text() for s in specs], "leader": leader, "blank": blank, "gaps": gaps, "chunk": chunk}
         try:
             got = CassetteFile(buffer=buf).list_files()
-        except VirtualFileValidationError as e:
+        except Exception as e:  # noqa: BLE001 - whatever the reader raises, the files were not listed
             got = None
-            info["read_error"] = str(e)
+            info["read_error"] = "%s: %s" % (type(e).__name__, e)
         if got is not None:
             info["listed"] = F.describe(got)
         ok = got is not None and F.same_list(got, descs)
